@@ -76,6 +76,14 @@ func (s *SubscriptionService) CreateSubscription(sc *uasc.SecureChannel, r ua.Re
 		return nil, err
 	}
 
+	// the subscription's goroutine takes its publish requests from the session
+	session := s.srv.Session(req.RequestHeader)
+	if session == nil {
+		return &ua.ServiceFault{
+			ResponseHeader: responseHeader(req.RequestHeader.RequestHandle, ua.StatusBadSessionIDInvalid),
+		}, nil
+	}
+
 	s.Mu.Lock()
 	defer s.Mu.Unlock()
 
@@ -89,7 +97,7 @@ func (s *SubscriptionService) CreateSubscription(sc *uasc.SecureChannel, r ua.Re
 
 	sub := NewSubscription()
 	sub.srv = s
-	sub.Session = s.srv.Session(r.Header())
+	sub.Session = session
 	sub.Channel = sc
 	sub.ID = newsubid
 	sub.RevisedPublishingInterval = revisePublishingInterval(req.RequestedPublishingInterval)
